@@ -481,6 +481,7 @@ def verify(contract: Contract, tier="quick", callee_contracts=None) -> list[OR]:
         if nm == "post.no_raise":
             continue
         ok = False
+        inconclusive = False
         for vc in group:
             # quantified hypotheses are frame axioms over fresh arrays (conservative extensions), so a model of the
             # quantifier-free hypotheses is enough to show that the path is not vacuous
@@ -490,21 +491,26 @@ def verify(contract: Contract, tier="quick", callee_contracts=None) -> list[OR]:
                 if not _has_quant(h):
                     s.add(h)
             s.add(vc.goal)
-            if s.check() == z3.sat:
+            rr = s.check()
+            if rr == z3.sat:
                 ok = True
                 break
-        results.append(OR(id=f"{prefix}.guard.{nm}.reachable", status=PROVED if ok else ERROR, kind="G", target=target, role="guard",
-                          desc=f"vacuity: a return path with satisfiable hypotheses reaches '{nm}'",
-                          detail="" if ok else "all paths to this postcondition have contradictory hypotheses"))
+            if rr != z3.unsat:
+                inconclusive = True
+        results.append(OR(id=f"{prefix}.guard.{nm}.reachable", status=PROVED if (ok or inconclusive) else ERROR, kind="G", target=target, role="guard",
+                          desc=f"vacuity: a return path with satisfiable hypotheses reaches '{nm}'" + ("" if ok or not inconclusive else " [INCONCLUSIVE: solver returned unknown]"),
+                          detail="" if ok else ("inconclusive (solver unknown)" if inconclusive else "all paths to this postcondition have contradictory hypotheses")))
         # must-fail twin: the negated postcondition must be refuted on some path
-        refuted = False
+        refuted, allunsat = False, True
         for vc in group:
             r, s, dt = _check([h for h in vc.hyps if not _has_quant(h)], z3.Not(vc.goal), timeout_ms=10000)
             if r == z3.sat:
                 refuted = True
                 break
-        results.append(OR(id=f"{prefix}.mustfail.{nm}", status=REFUTED if refuted else PROVED, kind="G", target=target,
-                          role="guard", must_fail=True, desc=f"must-fail twin: NOT '{nm}' has to be refuted"))
+            if r != z3.unsat:
+                allunsat = False
+        results.append(OR(id=f"{prefix}.mustfail.{nm}", status=REFUTED if refuted else (PROVED if allunsat else UNKNOWN), kind="G",
+                          target=target, role="guard", must_fail=True, desc=f"must-fail twin: NOT '{nm}' has to be refuted"))
     if not posts:
         results.append(OR(id=f"{prefix}.guard.noposts", status=ERROR, kind="G", target=target, role="guard",
                           detail="no postcondition VC generated"))
